@@ -88,6 +88,22 @@ def cases_for(rng, tier):
             if all(c < 128 for c in d):
                 cases.append("cmpstr %s %s %s" % (v, hx(d), hx(t)))
                 cases.append("cmpstr %s %s %s" % (v, hx(t), hx(d)))
+        # far-apart pairs (the variant's own maximum and values around the DEFAULT type's maximum): opposite bodies, length codes
+        # 0 vs 128, Q ratios 0 vs 8, different checksums -- and the same with some parts equal
+        size, ckn = VARIANTS[v][3], VARIANTS[v][0]
+        for body_b in (0xFF, 0xF0, 0xAA):
+            for (la, lb) in ((0, 128), (0, 100), (0, 1), (5, 5)):
+                for (qa, qb) in ((0x00, 0x88), (0x00, 0x08), (0x11, 0x11)):
+                    for ckd in (0, 1):
+                        a = bytearray(size)
+                        b2 = bytearray([body_b] * size)
+                        for i in range(ckn):
+                            a[i], b2[i] = 1, 1 + ckd
+                        a[ckn], b2[ckn] = la, lb
+                        a[ckn + 1], b2[ckn + 1] = qa, qb
+                        sa, sb = suites.ref_format(v, bytes(a), True), suites.ref_format(v, bytes(b2), True)
+                        cases.append("cmpstr %s %s %s" % (v, hx(sa.encode()), hx(sb.lower()[2:].encode())))
+                        cases.append("cmpstr %s %s %s" % (v, hx(sb.encode()), hx(sa.encode())))
         cases.append("cmpstr %s %s %s" % (v, hx(b""), hx(b"")))
         cases.append("cmpstr %s %s %s" % (v, hx(b"TNULL"), hx(b"T1")))
     for _ in range(n):
